@@ -65,6 +65,9 @@ Check(e) ==
          IF e.got # e.value THEN PrintT(<<"REJECT", l, "explicit-choice-lost", e.entry>>)
          ELSE IF e.moved # 0 THEN PrintT(<<"REJECT", l, "switch-moved-another-rule", e.entry>>)
          ELSE TRUE
+    \* a rule the user first chose and then set back to "default" (null): it takes its curated default again
+    [] e.ev = "Unset" ->
+         IF e.got # e.want THEN PrintT(<<"REJECT", l, "rule-set-back-to-default-keeps-its-old-value", e.entry>>) ELSE TRUE
     [] e.ev = "Effective" ->
          IF e.wrong # 0 THEN PrintT(<<"REJECT", l, "overlay-gives-a-rule-the-wrong-switch", e.entry>>) ELSE TRUE
     [] e.ev = "Overlay" ->
